@@ -168,8 +168,8 @@ func parseSpec(src string, binders bool) (n *Node, err error) {
 type parseErr string
 
 func (ps *parser) fail(f string, a ...interface{}) { panic(parseErr(fmt.Sprintf(f, a...))) }
-func (ps *parser) peek() tok                     { return ps.toks[ps.p] }
-func (ps *parser) next() tok                     { t := ps.toks[ps.p]; ps.p++; return t }
+func (ps *parser) peek() tok                       { return ps.toks[ps.p] }
+func (ps *parser) next() tok                       { t := ps.toks[ps.p]; ps.p++; return t }
 func (ps *parser) isOp(s string) bool              { t := ps.peek(); return t.kind == "op" && t.text == s }
 func (ps *parser) expect(s string) {
 	if !ps.isOp(s) {
